@@ -321,3 +321,38 @@ def c18_r7(ctx):
                    detail="create_file(%s): the file name does not depend on the document, and every BufferedWriter.add_document() makes a "
                           "new writer -- the values of earlier documents are overwritten" % (norm.canon(arg) if arg is not None else ""),
                    loc=ctx.nodeloc(f, c))
+
+
+@rule("C18", "R8", "K9", "a terms reader that has to sort for terms_from() sorts for terms() too",
+      min_instances=1, also=("C06",),
+      clause="Sibling agreement inside each TermsReader class: if terms_from() wraps a container in sorted(...) -- the container has no "
+             "order of its own -- then terms() does not iterate that container (or an item of it) bare. MultiReader merges the term "
+             "streams of its sub-readers as sorted streams; an unsorted one yields terms out of order and twice (the RAM segment of a "
+             "BufferedWriter next to committed segments).")
+def c18_r8(ctx):
+    prog = ctx.prog
+    base = prog.cls("codec.base.TermsReader")
+    n = 0
+
+    def root(e):
+        while isinstance(e, ast.Subscript):
+            e = e.value
+        return norm.canon(e)
+    for K in prog.subclasses(base, strict=True):
+        tf, tm = K.methods.get("terms_from"), K.methods.get("terms")
+        if tf is None or tm is None:
+            continue
+        unordered = set()
+        for c in norm.calls_in(tf.node):
+            if isinstance(c.func, ast.Name) and c.func.id == "sorted" and c.args:
+                unordered.add(root(c.args[0]))
+        if not unordered:
+            continue
+        n += 1
+        ctx.saw(tm)
+        bare = [lp for lp in ast.walk(tm.node) if isinstance(lp, (ast.For, ast.comprehension)) and root(lp.iter) in unordered]
+        ctx.ob(tm, not bare, "%s.terms() iterates in sorted order what terms_from() has to sort" % K.name,
+               detail="iterates %s bare; terms_from() sorts %s" % (sorted(set(norm.canon(lp.iter) for lp in bare)), sorted(unordered)) if bare else "",
+               loc=ctx.nodeloc(tm, bare[0].iter) if bare else None)
+    if n < 1:
+        raise AnalysisError("no terms reader sorts in terms_from() any more; re-confirm the rule")
